@@ -2,7 +2,7 @@
 ensure_connection (C09 C10 C11)."""
 from .common import *
 from .ledger_protocol import PROTO, PERR, PINT, ci, PINOBJ
-from .hsm2dongle_basic import VERSION
+from .hsm2dongle_basic import VERSION, ok
 from .pin import pin_policy
 
 CMD_UNLOCK, CMD_SEND_PIN, CMD_CHANGE_PIN = 0xFE, 0x41, 0x08
@@ -24,6 +24,18 @@ def answer(g, old, k):
 
 def unlocks(g):
     return sel(g.cnt, CMD_UNLOCK)
+
+
+def ok_change_pin(g):
+    """the last exchange was CHANGE_PIN and the device acknowledged it"""
+    return classify(g) == K_OK and g.last_cmd == CMD_CHANGE_PIN
+
+
+def pin_in_log(g):
+    """the 8 PIN bytes carried by the SEND_PIN APDUs that precede the last APDU (after the length byte)"""
+    n = len(g.log)
+    return bytes([g.log[n - 9][3], g.log[n - 8][3], g.log[n - 7][3], g.log[n - 6][3],
+                  g.log[n - 5][3], g.log[n - 4][3], g.log[n - 3][3], g.log[n - 2][3]])
 
 
 def last_two_say_onboarded_bootloader(g):
@@ -64,7 +76,20 @@ class HandleBootloader(Contract):
     @only("C10", "C09")
     def new_pin_only_after_unlock(self, g, old):
         return unlocks(g) == unlocks(old.g) + 1 and sel(g.cnt, CMD_CHANGE_PIN) == sel(old.g.cnt, CMD_CHANGE_PIN)
-    at_calls = {"unlock": [unlock_only_when_safe], "new_pin": [new_pin_only_after_unlock]}
+    # ---- C10: the PIN file is written only after the device acknowledged the new PIN, with that very PIN
+    @only("C10")
+    def commit_only_after_acknowledgement(self, g, old):
+        p = self.pin._new_pin
+        return (self.pin._changing and pin_policy(p) and ok_change_pin(g) and pin_in_log(g) == p
+                and g.fs_writes == old.g.fs_writes and g.pinfile == old.g.pinfile)
+    at_calls = {"unlock": [unlock_only_when_safe], "new_pin": [new_pin_only_after_unlock],
+                "commit_change": [commit_only_after_acknowledgement]}
+
+    @only("C10")
+    def serving_means_no_change_was_needed(self, g, old):
+        return (not field(field(old.self, "pin"), "_needs_change") and g.pinfile == old.g.pinfile
+                and g.fs_writes == old.g.fs_writes and self.pin._pin == field(field(old.self, "pin"), "_pin"))
+    at_exit = [serving_means_no_change_was_needed]
 
     def unlocked_without_pin_change(g, old):
         """normal return: exactly one unlock, accepted; no PIN change; the connection was re-opened"""
@@ -73,13 +98,30 @@ class HandleBootloader(Contract):
     ensures = [unlocked_without_pin_change]
 
     def x_frame(g, old): return monotone(g, old) and unlocks(g) <= unlocks(old.g) + 1
+    @only("C10")
+    def x_file_changes_only_after_acknowledgement(g, old):
+        return implies(g.fs_writes != old.g.fs_writes or g.pinfile != old.g.pinfile,
+                       ok_change_pin(g) and sel(g.cnt, CMD_CHANGE_PIN) == sel(old.g.cnt, CMD_CHANGE_PIN) + 1
+                       and g.fs_writes == old.g.fs_writes + 1)
+    @only("C10")
+    def x_refused_or_failed_change_leaves_pin_untouched(self, g, old):
+        return implies(not ok_change_pin(g) or sel(g.cnt, CMD_CHANGE_PIN) == sel(old.g.cnt, CMD_CHANGE_PIN),
+                       g.pinfile == old.g.pinfile and self.pin._pin == field(field(old.self, "pin"), "_pin"))
+    @only("C10")
+    def x_acknowledged_pin_is_on_disk(g, old):
+        """crash / failure safety: once the device has adopted a new PIN, that PIN is what the file holds"""
+        return implies(ok_change_pin(g) and sel(g.cnt, CMD_CHANGE_PIN) == sel(old.g.cnt, CMD_CHANGE_PIN) + 1,
+                       g.pinfile == pin_in_log(g))
+    def x_no_file_change(g, old): return g.pinfile == old.g.pinfile and g.fs_writes == old.g.fs_writes
+    C10X = [x_file_changes_only_after_acknowledgement, x_refused_or_failed_change_leaves_pin_untouched,
+            x_acknowledged_pin_is_on_disk]
     raises = {
-        PERR: Exc(args=[STR_], post=[x_frame]),
-        PINT: Exc(post=[x_frame]),
-        ERR_RESULT: Exc(args=[INT_], post=[x_frame, x_err]),
-        ERR_TIMEOUT: Exc(args=[STR_], post=[x_frame, x_timeout]),
-        ERR_COMM: Exc(args=[STR_], post=[x_frame]),
-        ERR_DONGLE: Exc(args=[STR_], post=[x_frame]),
+        PERR: Exc(args=[STR_], post=[x_frame, x_no_file_change]),
+        PINT: Exc(post=[x_frame] + C10X),
+        ERR_RESULT: Exc(args=[INT_], post=[x_frame, x_err, x_no_file_change]),
+        ERR_TIMEOUT: Exc(args=[STR_], post=[x_frame, x_timeout, x_no_file_change]),
+        ERR_COMM: Exc(args=[STR_], post=[x_frame, x_no_file_change]),
+        ERR_DONGLE: Exc(args=[STR_], post=[x_frame, x_no_file_change]),
     }
 
 
